@@ -158,11 +158,15 @@ static int uv__udp_recvmmsg(uv_udp_t* handle, uv_buf_t* buf) {
   struct sockaddr_in6 peers[20];
   struct iovec iov[ARRAY_SIZE(peers)];
   struct mmsghdr msgs[ARRAY_SIZE(peers)];
+  uv_udp_recv_cb recv_cb;
   ssize_t nread;
   uv_buf_t chunk_buf;
   size_t chunks;
   int flags;
   size_t k;
+
+  /* A chunk callback may stop receiving, which clears handle->recv_cb. */
+  recv_cb = handle->recv_cb;
 
   /* prepare structures for recvmmsg */
   chunks = buf->len / UV__UDP_DGRAM_MAXSIZE;
@@ -212,9 +216,10 @@ static int uv__udp_recvmmsg(uv_udp_t* handle, uv_buf_t* buf) {
                       flags);
     }
 
-    /* one last callback so the original buffer is freed */
-    if (handle->recv_cb != NULL)
-      handle->recv_cb(handle, 0, buf, NULL, UV_UDP_MMSG_FREE);
+    /* one last callback so the original buffer is freed, also when one of
+     * the chunk callbacks stopped receiving
+     */
+    recv_cb(handle, 0, buf, NULL, UV_UDP_MMSG_FREE);
   }
   return nread;
 #else  /* __linux__ || ____FreeBSD__ || __APPLE__ */
